@@ -15,7 +15,7 @@ Ltac unf := unfold result, no_cancel, fallback_nc, race_nc, cancelled_at, direct
   loser_orphan, F, server_alive, direct_ok, indirect_ok, lookup_ok, returns, residue_free,
   PEER_CONNECT_TIMEOUT, PEER_INDIRECT_CONNECT_TIMEOUT, LOOKUP_HAS_TIMEOUT, LOOKUP_TIMEOUT,
   CONNECT_CLOSES_ON_CANCEL, ATTEMPT_CLOSES_ON_CANCEL, INDIRECT_CLEANUP_ALWAYS, RACE_CANCELS_LOSER, RACE_DISCONNECTS_SECOND,
-  RACE_CANCELS_ON_CANCEL, RACE_CANCEL_DISCONNECTS_FINISHED, RACE_CANCEL_COVERS_WINNER_PATH, cancelled_tie, INDIRECT_CLOSES_ARRIVED_ON_CANCEL, PIERCE_IGNORES_DONE_WAITER in *.
+  DIRECT_FAILURES_FALL_BACK, RACE_CANCELS_ON_CANCEL, RACE_CANCEL_DISCONNECTS_FINISHED, RACE_CANCEL_COVERS_WINNER_PATH, cancelled_tie, INDIRECT_CLOSES_ARRIVED_ON_CANCEL, PIERCE_IGNORES_DONE_WAITER in *.
 
 Ltac cases :=
   repeat match goal with
